@@ -106,6 +106,8 @@ def named_algebras(repo):
         seen = {}
 
         def hook(cname, args, kwargs, _seen=seen):
+            if cname != "Algebra":
+                return NotImplemented           # helper records of the table of names are built as usual
             _seen["call"] = (list(args), dict(kwargs))
             return Obj("Algebra", {"fmt": "<Algebra>"})
         it.class_call_hook = hook
